@@ -65,25 +65,33 @@ LEAN = {
     "final": "Contracts.Final",
     "v3000": "Contracts.V3000",
     "v2000": "Contracts.V2000",
+    # written after the independent audit (lean/AUDIT.md) to close the gaps it found
+    "bonds": "Contracts.Bonds",
+    "c07star": "Contracts.C07Star",
+    "c07starbonds": "Contracts.C07StarBonds",
+    "fileiso": "Contracts.FileIso",
+    "writerext": "Contracts.WriterExt",
+    "c11ext": "Contracts.C11Ext",
+    "v2000file": "Contracts.V2000File",
 }
 
 PROPS = {
-    "C01": dict(probes=["v3"], functions=CANON + SERIAL + V3000 + V2000, lean=["pipeline", "canonicalize", "finallabels", "layout", "serialize", "reader"], diff=["pipeline", "io"],
+    "C01": dict(probes=["v3"], functions=CANON + SERIAL + V3000 + V2000, lean=["pipeline", "canonicalize", "finallabels", "layout", "serialize", "reader", "fileiso"], diff=["pipeline", "io"],
                 bounded=[("pipeline", "c01"), ("c01_text", None)],
                 canary="C01"),
     "C02": dict(probes=["v3"], functions=CANON + SERIAL + PARSER, lean=["roundtrip", "layout", "parser", "canonicalize"], diff=["pipeline", "parser"], bounded=[("c02", None)]),
     "C03": dict(probes=["v3"], functions=CANON + SERIAL + PARSER, lean=["final", "roundtrip", "layout", "parser", "canonicalize", "finallabels"], diff=["pipeline", "parser"], bounded=[("pipeline", "c03")]),
     "C04": dict(probes=["v3"], functions=CANON, lean=["canonicalize"], diff=["pipeline"], bounded=[("pipeline", "c04")]),
-    "C05": dict(functions=CANON + SERIAL + V3000 + V2000, lean=["pipeline", "layout", "serialize", "reader"], diff=["pipeline"], bounded=[("c05", None)]),
-    "C06": dict(functions=CANON + SERIAL + V3000 + V2000, lean=["final", "pipeline", "reader", "v3000", "v2000"], diff=["pipeline", "io"], bounded=[("c06", None)]),
-    "C07": dict(functions=V3000, lean=["reader", "v30line", "v3000"], diff=["io"], bounded=[("c07", None)]),
-    "C08": dict(functions=V2000 + V3000 + CANON + SERIAL, lean=["final", "v2000", "reader"], diff=["io"], bounded=[("c08", None)]),
-    "C09": dict(probes=["v5"], functions=WRITER + V3000 + PARSER + CANON + SERIAL, lean=["final", "writer", "v30line"], diff=["io"], bounded=[("c09", None)]),
+    "C05": dict(functions=CANON + SERIAL + V3000 + V2000, lean=["pipeline", "layout", "serialize", "reader", "v2000file", "fileiso"], diff=["pipeline"], bounded=[("c05", None)]),
+    "C06": dict(functions=CANON + SERIAL + V3000 + V2000, lean=["final", "pipeline", "reader", "v3000", "v2000", "fileiso"], diff=["pipeline", "io"], bounded=[("c06", None)]),
+    "C07": dict(functions=V3000, lean=["reader", "v30line", "v3000", "bonds", "c07star", "c07starbonds"], diff=["io"], bounded=[("c07", None)]),
+    "C08": dict(functions=V2000 + V3000 + CANON + SERIAL, lean=["final", "v2000", "reader", "v2000file", "bonds", "fileiso"], diff=["io"], bounded=[("c08", None)]),
+    "C09": dict(probes=["v5"], functions=WRITER + V3000 + PARSER + CANON + SERIAL, lean=["final", "writer", "v30line", "writerext", "bonds"], diff=["io"], bounded=[("c09", None)]),
     "C10": dict(functions=PARSER, lean=["parser"], diff=["parser"], bounded=[("c10", None)]),
-    "C11": dict(probes=["v3"], functions=PARSER + CANON + SERIAL, lean=["final", "roundtrip", "parser", "canonicalize", "layout", "finallabels"], diff=["parser", "pipeline"], bounded=[("c11", None)]),
+    "C11": dict(probes=["v3"], functions=PARSER + CANON + SERIAL, lean=["final", "roundtrip", "parser", "canonicalize", "layout", "finallabels", "c11ext"], diff=["parser", "pipeline"], bounded=[("c11", None)]),
     "C12": dict(functions=CANON + SERIAL, lean=["canonicalize", "relabel", "finallabels"], diff=["pipeline"], bounded=[("pipeline", "c12")]),
-    "C13": dict(probes=[], functions=CANON, lean=["canonicalize", "partition"], diff=["pipeline"], bounded=[("pipeline", "c13")]),
-    "C14": dict(functions=CANON + SERIAL + PARSER + V3000 + V2000 + WRITER, lean=["pipeline", "finallabels"], diff=[], bounded=[("c14", None)]),
+    "C13": dict(probes=[], functions=CANON, lean=["canonicalize", "partition", "c11ext"], diff=["pipeline"], bounded=[("pipeline", "c13")]),
+    "C14": dict(functions=CANON + SERIAL + PARSER + V3000 + V2000 + WRITER, frames="registered", lean=["pipeline", "finallabels"], diff=[], bounded=[("c14", None)]),
     "C15": dict(functions=CANON + SERIAL + PARSER, lean=["pipeline", "canonicalize", "finallabels", "partition", "parser"], diff=["pipeline"], bounded=[("c15", None)]),
     "C16": dict(probes=["v6"], functions=[F["permute_molecule"], F["_permute_molecule"], F["_sort_molecule_by_label"]], lean=["relabel"], diff=["pipeline"], bounded=[("c16", None)]),
 }
@@ -93,30 +101,30 @@ PROPS = {
 # level "proof": every link of the argument is a discharged Lean obligation over code extracted on this run (dependency
 # contracts V3-V6 are hypotheses of the theorems); the bounded part then only serves as refuter and as probe of the model.
 TOP = {
-    "C01": dict(level="proof", theorems=["Contracts.Pipeline.C01_main", "Contracts.Pipeline.C01_tucan", "Contracts.FinalLabels.assign_final_labels_order_independent"],
+    "C01": dict(level="proof", theorems=["Contracts.Pipeline.C01_main", "Contracts.Pipeline.C01_tucan", "Contracts.FinalLabels.assign_final_labels_order_independent", "Contracts.FileIso.C01_files", "Contracts.FileIso.C01_C06_files", "Contracts.FileIso.C01_C06_texts"],
                 note="hypotheses: WF graphs produced by the readers/parser (invariant code determines the identity attributes), SetLawful (any set order), BlissLawful (assumed bliss contract, probe V3)"),
     "C02": dict(level="proof", theorems=["Contracts.RoundTrip.C02_pipeline'", "Contracts.RoundTrip.C02_main'", "Contracts.RoundTrip.render_inj"],
                 note="equal strings imply a colour-preserving isomorphism of the input molecules; unconditional on ANTLR (proved through injectivity of the rendering); under BlissLawful/SetLawful only for the pipeline runs to succeed"),
     "C03": dict(level="proof", theorems=["Contracts.Final.C03_fixpoint", "Contracts.Final.C03_fixpoint_ex", "Contracts.RoundTrip.C03_pipeline", "Contracts.RoundTrip.C03_main", "Contracts.Parser.graph_from_tree_ok"],
                 note="both clauses proved under assumption V4 (ANTLR returns the tree of the grammar on the emitted string; bounded differential probe), BlissLawful, SetLawful; molecules are reader/parser output (MolOK, InvariantCodeOK)"),
     "C04": dict(level="proof", theorems=["Contracts.Canonicalize.C04_main"], note="under BlissLawful; requires that equal invariant codes imply equal identity attributes (true for reader/parser output)"),
-    "C05": dict(level="proof", theorems=["Contracts.Pipeline.C05_pipeline", "Contracts.Layout.Grammar.tucanSpec_in_grammar", "Contracts.Layout.tuples_layout", "Contracts.Layout.blocks_layout", "Contracts.Layout.formula_layout"],
+    "C05": dict(level="proof", theorems=["Contracts.Pipeline.C05_pipeline", "Contracts.Layout.Grammar.tucanSpec_in_grammar", "Contracts.Layout.tuples_layout", "Contracts.Layout.blocks_layout", "Contracts.Layout.formula_layout", "Contracts.V2000File.read_v2000_render", "Contracts.FileIso.idFacts_of_atomLine"],
                 note="grammar = tucan.ebnf transcribed into Lean at character level; preconditions (symbols from the element table, positive mass/rad, no self-loop) are what the readers/parser guarantee after fixes D3, D7, D8"),
-    "C06": dict(level="proof", theorems=["Contracts.Final.C06_reader_text", "Contracts.Final.C06_reader", "Contracts.Final.C08_agree", "Contracts.Pipeline.C06_graph_half", "Contracts.Reader.splitlines_crlf", "Contracts.Reader.graph_from_molfile_text_dress_irrelevant"],
+    "C06": dict(level="proof", theorems=["Contracts.Final.C06_reader_text", "Contracts.Final.C06_reader", "Contracts.Final.C08_agree", "Contracts.Pipeline.C06_graph_half", "Contracts.Reader.splitlines_crlf", "Contracts.Reader.graph_from_molfile_text_dress_irrelevant", "Contracts.FileIso.C06_files", "Contracts.FileIso.C06_resonance", "Contracts.FileIso.C01_C06_files", "Contracts.FileIso.C01_C06_texts", "Contracts.FileIso.C01_C06_v2000", "Contracts.FileIso.C01_C06_v3000_v2000"],
                 note="V3000 files with arbitrary headers, blank runs, cut points, separators, index values, coordinates, charges, bond types, foreign keywords; star-atom tables are outside the file-level theorem (covered by the V3000 contracts and the bounded part)"),
-    "C07": dict(level="proof", theorems=["Contracts.Reader.graph_from_molfile_text_render_ok", "Contracts.Reader.fileMeaning_plain_graph", "Contracts.V3000._parse_atom_attributes_ok", "Contracts.V30Line.splice_phys"],
+    "C07": dict(level="proof", theorems=["Contracts.Reader.graph_from_molfile_text_render_ok", "Contracts.Reader.fileMeaning_plain_graph", "Contracts.V3000._parse_atom_attributes_ok", "Contracts.V30Line.splice_phys", "Contracts.Bonds.graph_from_molfile_text_render_ok_bonds", "Contracts.C07Star.graph_from_molfile_text_render_star", "Contracts.C07Star.graph_from_molfile_text_render_star_bonds", "Contracts.C07Star.graph_from_molfile_text_render_star_reject", "Contracts.C07Star.keyword_order_text", "Contracts.C07Star.atom_line_keyword_order", "Contracts.C07Star.hydrogen_isotope_mass", "Contracts.C07Star.wf_of_format"],
                 note="renderer with arbitrary blank runs, cut points, header lines, separators; float() opaque (V5); tokens must not contain Unicode blanks outside the model's isPySpace"),
-    "C08": dict(level="proof", theorems=["Contracts.Final.C08_agree", "Contracts.Reader.graph_from_molfile_text_v2000", "Contracts.V2000._parse_attribute_block_ok", "Contracts.V2000.specGet_mass_kept"],
+    "C08": dict(level="proof", theorems=["Contracts.Final.C08_agree", "Contracts.Reader.graph_from_molfile_text_v2000", "Contracts.V2000._parse_attribute_block_ok", "Contracts.V2000.specGet_mass_kept", "Contracts.V2000File.read_v2000_render", "Contracts.V2000File.read_v3000_render", "Contracts.V2000File.read_v2000_eq_v3000", "Contracts.V2000File.read_v2000_eq_v3000_lists", "Contracts.Bonds.graph_from_molfile_text_v2000_bonds", "Contracts.FileIso.C01_C06_v3000_v2000"],
                 note="a V2000 text and a V3000 rendering with the same identity data are both read and get the same TUCAN string; charges/bond types are characterised by the V2000 contracts (specGet)"),
-    "C09": dict(level="proof", theorems=["Contracts.Writer.C09", "Contracts.Final.C09_tucan", "Contracts.Final.C09_string", "Contracts.Writer.C09_line_length", "Contracts.Writer.C09_splice", "Contracts.Writer.C09_atom_roundtrip"],
+    "C09": dict(level="proof", theorems=["Contracts.Writer.C09", "Contracts.Final.C09_tucan", "Contracts.Final.C09_string", "Contracts.Writer.C09_line_length", "Contracts.Writer.C09_splice", "Contracts.Writer.C09_atom_roundtrip", "Contracts.WriterExt.C09_coords", "Contracts.WriterExt.C09_tucan'", "Contracts.WriterExt.C09_string'", "Contracts.WriterExt.written_wellformed", "Contracts.WriterExt.written_wellformed_parsed", "Contracts.Bonds.C09_tucan_bonds", "Contracts.Bonds.C09_string_bonds"],
                 note="coordinates: reading back gives parseFloat(fmt6 x); 'to six decimals' rests on the float law V5 (probed); radicals 1..3 as in the property's quantifier (the writer drops RAD > 3)"),
     "C10": dict(level="other", theorems=["Contracts.Parser.graph_from_tree_ok", "Contracts.Parser.graph_from_tree_error_is_TPE", "Contracts.Parser.int_total"],
                 note="semantic half proved; the recogniser half (ANTLR accepts exactly tucan.g4) cannot be proved here and is bounded (assumption V4)"),
-    "C11": dict(level="proof", theorems=["Contracts.Final.C11_norm", "Contracts.Final.C11_norm_text", "Contracts.Final.C11_idem_text", "Contracts.RoundTrip.C11_main"],
+    "C11": dict(level="proof", theorems=["Contracts.Final.C11_norm", "Contracts.Final.C11_norm_text", "Contracts.Final.C11_idem_text", "Contracts.RoundTrip.C11_main", "Contracts.C11Ext.C11_renumber", "Contracts.C11Ext.C11_renumber_text", "Contracts.C11Ext.C11_norm_ok", "Contracts.C11Ext.C11_norm_text_ok", "Contracts.C11Ext.C11_domain"],
                 note="respellings as relation Respell on syntax trees (same formula, same bond set, permuted attribute settings; renumbering inside an element block is covered by C01); string level under assumption V4"),
     "C12": dict(level="proof", theorems=["Contracts.Canonicalize.C12_main", "Contracts.FinalLabels.serialize_molecule_frame_eq", "Contracts.FinalLabels.serialize_molecule_repeat"],
                 note="'argument unchanged' is the frame obligation of canonicalize_molecule (no mutated parameter) — back end: extractor"),
-    "C13": dict(level="proof", theorems=["Contracts.Canonicalize.C13_main", "Contracts.Canonicalize.C13_classes", "Contracts.Canonicalize.C13_automorphism", "Contracts.Partition.refine_equitable"],
+    "C13": dict(level="proof", theorems=["Contracts.Canonicalize.C13_main", "Contracts.Canonicalize.C13_classes", "Contracts.Canonicalize.C13_automorphism", "Contracts.Partition.refine_equitable", "Contracts.C11Ext.C13_attrs", "Contracts.C11Ext.C13_main_attrs"],
                 note="under BlissLawful (only for carrying the classes through the final renaming) and SetLawful"),
     "C14": dict(level="other", theorems=["Contracts.Pipeline.C01_tucan", "Contracts.FinalLabels.assign_final_labels_order_independent", "Contracts.Partition.partition_eq"],
                 note="decided: (hash seed) the pipeline result is the same for any two set iteration orders (C01_tucan with g = h; the extractor shows sets are iterated only in canonicalization/serialization), (history) every function under contract is a pure function of its arguments with the recorded frame: no global writes, external state only random/clock/igraph/float as recorded, fresh listener per parse (glue fingerprint). NOT decided: thread schedules and state inside igraph, networkx and the antlr4 runtime (shared DFA cache) — bounded subprocess/thread probe only"),
@@ -129,5 +137,15 @@ TOP = {
 # vacuity guards: for every property-level theorem a concrete instance satisfying all its hypotheses is machine-checked in
 # lean/Contracts/Witness.lean (written by an independent reviewer, see lean/AUDIT.md); the check builds it and lists these per property
 WITNESS_MODULE = "Contracts.Witness"
-WITNESSES = {'C01': ['C01_witness'], 'C02': ['C02_witness'], 'C03': ['C03_pipeline_witness', 'C03_fixpoint_witness'], 'C04': ['C04_witness'], 'C05': ['C05_witness'], 'C06': ['C06_reader_witness'], 'C07': ['render_ok_witness'], 'C08': ['v2000_witness', 'C08_witness'], 'C09': ['C09_witness'], 'C11': ['C11_norm_witness'], 'C12': ['C12_witness'], 'C13': ['C13_witness'], 'C15': ['C15_witness'], 'C16': ['permute_runs', 'permute_witness']}
-WITNESSES = {k: ["Contracts.Witness." + n for n in v] for k, v in WITNESSES.items()}
+_W = {"C01": ["C01_witness"], "C02": ["C02_witness"], "C03": ["C03_pipeline_witness", "C03_fixpoint_witness"], "C04": ["C04_witness"], "C05": ["C05_witness"],
+      "C06": ["C06_reader_witness"], "C07": ["render_ok_witness"], "C08": ["v2000_witness", "C08_witness"], "C09": ["C09_witness"], "C11": ["C11_norm_witness"],
+      "C12": ["C12_witness"], "C13": ["C13_witness"], "C15": ["C15_witness"], "C16": ["permute_runs", "permute_witness"]}
+# (module, theorem) pairs
+WITNESSES = {k: [(WITNESS_MODULE, "Contracts.Witness." + n) for n in v] for k, v in _W.items()}
+WITNESSES["C01"].append(("Contracts.FileIsoWitness", "Contracts.FileIsoWitness.C01_C06_witness"))
+WITNESSES["C06"].append(("Contracts.FileIsoWitness", "Contracts.FileIsoWitness.C01_C06_witness"))
+WITNESSES["C07"] += [("Contracts.C07Star", "Contracts.C07Star.star_witness"), ("Contracts.C07StarBonds", "Contracts.C07Star.star_witness_bonds")]
+WITNESSES["C08"] += [("Contracts.V2000File", "Contracts.V2000File.exMol_wf"), ("Contracts.V2000File", "Contracts.V2000File.exChoice_ok")]
+WITNESSES["C09"] += [("Contracts.WriterExt", "Contracts.WriterExt.C09_coords_witness"), ("Contracts.WriterExt", "Contracts.WriterExt.written_wellformed_witness"),
+                     ("Contracts.WriterExt", "Contracts.WriterExt.floatLawful_satisfiable")]
+WITNESSES["C11"] += [("Contracts.C11Ext", "Contracts.C11Ext.renumber_water"), ("Contracts.C11Ext", "Contracts.C11Ext.spelling_water")]
